@@ -924,6 +924,10 @@ def retry_dead_contract(E, st, args, kwargs, selfv, site):
         if _l in ("nodes-have-clients", "client-table-is-keyed-by-the-client's-own-server"):
             st.assume(g)
     st.ghost["retry_dead_calls"] = st.ghost.get("retry_dead_calls", 0) + 1
+    if st.ghost.get("get_node_calls"):
+        # a placement lookup was made on the rotation as it was BEFORE this revival: its answer is not the placement
+        # that the rest of a batch and every later call compute
+        st.ghost["revival_after_lookup"] = True
     return [Outcome("return", st, NONE)]
 
 
@@ -1029,7 +1033,7 @@ def hash_single_exit(E, q, meth, o, me, f, vals, want, params, ign, cfi, plabel,
     okh = len(hc) >= 1 and len(hc[0][0]) == 3 and hc[0][0][0] is route_key and hc[0][0][1] is f["allow_unicode_keys"] and hc[0][0][2] is f["key_prefix"]
     E.oblige("%s/routing-key-validated-with-(key,allow_unicode_keys,key_prefix)%s" % (hid("route", q), E.case_suffix), s, T(okh), func=q)
     # ---- C12: one placement lookup with the routing key; the call goes to the client of that node
-    ok_gn = len(gn) == 1 and gn[0][0] is route_key
+    ok_gn = len(gn) == 1 and gn[0][0] is route_key and not s.ghost.get("revival_after_lookup")
     E.oblige("%s/exactly-one-placement-lookup-with-the-routing-key%s" % (hid("route", q), E.case_suffix), s,
              T(ok_gn or (len(gn) == 0 and not calls)), func=q)
     if o.kind == "raise" and not calls:
